@@ -7,6 +7,18 @@ import json
 import common, pool, specs, c06
 
 
+def two_formats(d):
+    """some tensor bound to a memory component has two or more declared formats (so a binding can name a format
+    that is not the one the tensor is traversed in)"""
+    fm = d.get("format") or {}
+    for ein, bl in (d.get("bindings") or {}).items():
+        for b in bl:
+            for x in b.get("bindings") or []:
+                if isinstance(x, dict) and "tensor" in x and "format" in x and len(fm.get(x["tensor"]) or {}) > 1:
+                    return True
+    return False
+
+
 def run(ctx):
     import gens7
     ctx.rule = ("metrics-mode compilations of the corpus accelerator specifications and of generated G7 specifications under several hash seeds; the tree is handed to Lean, which extracts the "
@@ -36,9 +48,29 @@ def run(ctx):
             ctx.sample({"einsum": r["yaml"]["einsum"]["expressions"], "events": a["events"], "consuming_events": a["consumed"], "sections": a["sections"]})
         if a["ok"] and sections_ok:
             continue
+        if not a["ok"] and "needs files" in a["why"] and two_formats(r["yaml"]):
+            f = ctx.match_finding({"predicates": {"tensor_with_several_formats_bound"}, "signature": "unregistered-trace-file-consumed"})
+            if f:
+                ctx.known(f, f["what"], failed_obligations=1 + (0 if sections_ok else 1)); continue
         ctx.violation(dict(kind="trace-machine", yaml=r["yaml"], yaml_text=specs.dump_yaml(r["yaml"]), hashseed=r["hashseed"], text=r["text"],
                            reason=a["why"] if not a["ok"] else "collection is opened/closed %d/%d times for %d Einsum(s)" % (a["begins"], a["sections"], n),
                            obligation="TraceOK (Props/C12.traceOK_sound) on the tree of the real compiler"), True)
+    witnesses(ctx)
+
+
+def witnesses(ctx):
+    for f in ctx.findings:
+        w = f.get("witness")
+        if not w:
+            continue
+        c = specs.compile_spec(w, "metrics")
+        if not c.ok:
+            ctx.notes.append("known finding %s: witness no longer compiles" % f["id"]); continue
+        a = common.lean_batch([{"op": "trace_ok", "tree": c.tree()}])[0]
+        if a["ok"]:
+            ctx.notes.append("known finding %s: witness no longer fails - entry must be revisited" % f["id"])
+        else:
+            ctx.known(f, f["what"], failed_obligations=0)
 
 
 def replay(ctx, path):
